@@ -41,6 +41,38 @@ type seCase struct {
 	// StderrFirst: the plugin writes its whole stderr output before it prints the handshake line (and
 	// blocks there if nobody reads its stderr meanwhile)
 	StderrFirst bool `json:"stderr_first"`
+	// Real: a real child process (sh) launched with Cmd writes the stderr bytes and then prints its first stdout
+	// line -- a malformed one when BadLine (Start fails and kills it) -- while the host's Stderr writer takes
+	// SlowWriteMs per write, so that the reader is behind the plugin when the kill comes
+	Real        bool `json:"real,omitempty"`
+	BadLine     bool `json:"bad_line,omitempty"`
+	SlowWriteMs int  `json:"slow_write_ms,omitempty"`
+}
+
+// slowWriter is the host's Stderr writer of the real-process cases
+type slowWriter struct {
+	mu  sync.Mutex
+	buf bytes.Buffer
+	ms  int
+	n   int
+}
+
+func (w *slowWriter) Write(p []byte) (int, error) {
+	w.mu.Lock()
+	w.n++
+	slow := w.n <= 40
+	w.mu.Unlock()
+	if slow && w.ms > 0 {
+		time.Sleep(time.Duration(w.ms) * time.Millisecond)
+	}
+	w.mu.Lock()
+	defer w.mu.Unlock()
+	return w.buf.Write(p)
+}
+func (w *slowWriter) String() string {
+	w.mu.Lock()
+	defer w.mu.Unlock()
+	return w.buf.String()
 }
 
 const tsOK = "2026-01-02T15:04:05.000000Z"
@@ -213,11 +245,48 @@ func runStderrCase(c seCase, tmp string) map[string]interface{} {
 		},
 	}
 	out := map[string]interface{}{"panic": false}
+	module := "host.scripted-plugin"
+	var sw *slowWriter
+	if c.Real {
+		sw = &slowWriter{ms: c.SlowWriteMs}
+		dir, _ := os.MkdirTemp(tmp, "real")
+		defer os.RemoveAll(dir)
+		streamFile := filepath.Join(dir, "stderr.bin")
+		os.WriteFile(streamFile, stream, 0o644)
+		line := "1|1|unix|" + filepath.Join(dir, "nobody.sock") + "|netrpc|"
+		if c.BadLine {
+			line = "this is not a handshake line"
+		}
+		cfg.RunnerFunc = nil
+		cfg.Cmd = exec.Command("/bin/sh", "-c", `cat "$1" >&2; printf '%s\n' "$2"; exec sleep 30`, "sh", streamFile, line)
+		cfg.Stderr = sw
+		cfg.StartTimeout = 20 * time.Second
+		module = "host.sh"
+		close(stderrDone)
+		close(stdoutDone)
+	}
 	cl := plugin.NewClient(cfg)
 	_, err := cl.Start()
 	out["start_ok"] = err == nil
+	if c.Real && c.BadLine {
+		out["start_ok"] = err != nil // what is expected of this case: the line is rejected
+	}
 	if err != nil {
 		out["start_err"] = err.Error()
+	}
+	if c.Real {
+		// everything the plugin wrote to its stderr before it printed the line has to come out, killed or not
+		want := 0
+		for _, b := range stream {
+			if b == '\n' {
+				want++
+			}
+		}
+		deadline := time.Now().Add(10 * time.Second)
+		for time.Now().Before(deadline) && strings.Count(sw.String(), "\n") < want {
+			time.Sleep(20 * time.Millisecond)
+		}
+		time.Sleep(100 * time.Millisecond)
 	}
 	finished, drained := true, true
 	select {
@@ -234,6 +303,9 @@ func runStderrCase(c seCase, tmp string) map[string]interface{} {
 	out["stdout_drained"] = drained
 	sr.Exit()
 	cl.Kill()
+	if c.Real {
+		stderrCopy.WriteString(sw.String())
+	}
 
 	// ---- what was copied to the Stderr writer, line by line
 	norm := func(s string) string { return strings.TrimSuffix(s, "\r") }
@@ -253,7 +325,7 @@ func runStderrCase(c seCase, tmp string) map[string]interface{} {
 		if json.Unmarshal([]byte(l), &m) != nil {
 			continue
 		}
-		if mod, _ := m["@module"].(string); mod != "host.scripted-plugin" {
+		if mod, _ := m["@module"].(string); mod != module {
 			continue
 		}
 		r := rec{KV: map[string]interface{}{}}
